@@ -1,6 +1,7 @@
 """C02 — seeded environments are reproducible and isolated from every global RNG.
 See DESIGN.md §2 C02."""
 from .. import boot  # noqa: F401
+import functools
 import hashlib
 import json
 import os
@@ -16,13 +17,15 @@ from gym_gridverse.action import Action
 from gym_gridverse.debugging import reset_gv_debug
 from gym_gridverse.envs import gridworld as gridworld_mod
 from gym_gridverse.envs import reset_functions as reset_fs
+from gym_gridverse.envs import reward_functions as reward_fs
+from gym_gridverse.envs import terminating_functions as terminating_fs
 from gym_gridverse.envs import transition_functions as transition_fs
 from gym_gridverse.envs import visibility_functions as visibility_fs
 from gym_gridverse.geometry import Position, Shape
 from gym_gridverse.grid_object import Color, Floor, MovingObstacle, Telepod
 
 from .. import compose, enc, gen, workloads
-from ..monitor import call_real, describe_exc, env_rng_state_repr, raised_by_harness, reach
+from ..monitor import call_real, describe_exc, env_rng_state_repr, env_slot, raised_by_harness, reach
 
 ID = 'C02'
 LEVEL = 'exploration'
@@ -507,6 +510,7 @@ def composition_factory(comp_seed):
         comp = workloads.Composition(rng, force_all_actions=True,
                                      force_transitions=rng.sample(workloads.TRANSITIONS, 4) + ['move_obstacles', 'teleport'])
         comp.rewards = [{'name': 'living_reward', 'reward': -0.1}, {'name': 'reach_exit'}, {'name': 'bump_moving_obstacle'}]
+        comp.noisy_parts = (comp_seed % 3 == 1)  # a user-defined stochastic reward and termination part (see noisy_reward)
         comp.terminating = {'name': 'reach_exit'}
         a = [[comp.area.ymin, comp.area.ymax], [comp.area.xmin, comp.area.xmax]]
         comp.observation = rng.choice([{'name': 'stochastic_raytracing', 'area': a},
@@ -522,8 +526,25 @@ def composition_factory(comp_seed):
         comp.shape = (kw['shape'].height, kw['shape'].width)
         comp.wrap_parts = rng.choice([0, 0, 1, 2, 3])  # chain members behind **kwargs wrappers / callable objects
         reset = reset_fs.factory(name, **kw)
-        return comp.build(reset)
+        env = comp.build(reset)
+        if comp.noisy_parts:
+            # user-defined stochastic components written to the documented protocols (they draw from the generator they are
+            # given, and from the library generator only when given none): a seeded environment hands them its own
+            r_slot, t_slot = env_slot(env, 'reward'), env_slot(env, 'termination')
+            if r_slot and t_slot:
+                base_r, base_t = getattr(env, r_slot), getattr(env, t_slot)
+                setattr(env, r_slot, functools.partial(reward_fs.reduce_sum, reward_functions=[base_r, noisy_reward]))
+                setattr(env, t_slot, functools.partial(terminating_fs.reduce_any, terminating_functions=[base_t, noisy_termination]))
+        return env
     return make
+
+
+def noisy_reward(state, action, next_state, *, rng=None):
+    return float(gv_rng.get_gv_rng_if_none(rng).integers(0, 1000)) / 1000.0
+
+
+def noisy_termination(state, action, next_state, *, rng=None):
+    return bool(gv_rng.get_gv_rng_if_none(rng).integers(0, 40) == 0)
 
 
 def run(ctx):
